@@ -455,14 +455,6 @@ theorem insert_int_lossless_or_fails (w w' : IW) (x : Int) (v' : IVal)
   · cases h; exact ⟨rfl, by assumption⟩
   · cases h
 
-/-- Numeric denotation in tenths (TRUE = 1, FALSE = 0; strings by their integer reading). -/
-def IVal.tenths : IVal → Option Int
-  | .null => none
-  | .bool b => some (if b then 10 else 0)
-  | .int _ x => some (10 * x)
-  | .str s => (parseIntStr s).map (10 * ·)
-  | .dec d => some d
-
 /-- Full statement: an INSERT conversion of a numeric value keeps the number or fails. -/
 def InsertLossless : Prop := ∀ (t : Ty) (v v' : IVal), v.tenths.isSome →
   castI t v = .ok v' → v'.tenths = v.tenths
@@ -538,6 +530,41 @@ theorem readRow_mem (decls : List ColDecl) (row : List IVal)
 theorem mem_reads_back_exactly : NoSilentReplacement .mem := by
   intro decls vs row hc
   exact readRow_mem decls row (insert_row_types decls vs row hc).1
+
+/-! ## The reason tags are exactly the forced hypotheses -/
+
+theorem specCol_eq_of_no_tag (e : Engine) (d : ColDecl) (v : IVal) (h : colTags e d v = []) :
+    specCol d v = castI d.ty v := by
+  unfold colTags at h
+  unfold specCol
+  split at h
+  · cases e <;> simp at h
+  · rename_i hn
+    simp only [hn]
+    cases hc : castI d.ty v with
+    | ok v' =>
+      simp only [hc] at h ⊢
+      split at h
+      · simp at h
+      · rename_i hl; simp [hl]
+    | err => rfl
+    | panic => rfl
+
+/-- When the model raises no reason tag for a row, what INSERT stores is what the property
+demands (conversion lossless, NOT NULL respected). -/
+theorem insert_agrees_with_spec_partial (e : Engine) (decls : List ColDecl) (vs : List IVal)
+    (h : rowTags e decls vs = []) : castRow decls vs = specRow decls vs := by
+  induction decls generalizing vs with
+  | nil => cases vs <;> simp [castRow, specRow]
+  | cons d ds ih =>
+    cases vs with
+    | nil => simp [castRow, specRow]
+    | cons v vs =>
+      simp only [rowTags, List.append_eq_nil_iff] at h
+      simp only [castRow, specRow, specCol_eq_of_no_tag e d v h.1, ih vs h.2]
+
+example : rowTags .disk [⟨.int .w32, false⟩, ⟨.bool, true⟩] [.null, .int .w32 5]
+    = ["notnull:not-enforced:null-read-as-default", "insert:lossy-cast:int->bool"] := by decide
 
 example : selectAll .disk [⟨.int .w32, false⟩, ⟨.int .w32, true⟩] [[.null, .null], [.int .w32 1, .dec 27]]
     = [[.int .w32 0, .null], [.int .w32 1, .int .w32 2]] := by decide
